@@ -42,6 +42,31 @@ def cmd_check(a):
     sys.exit(rc)
 
 
+def cmd_extra(a):
+    """Spec modules beyond the listed properties: same machinery, not part of MANIFEST.json."""
+    seed = a.seed if a.seed is not None else int(os.environ.get("VERIF_SEED", "0") or 0)
+    tier = a.tier or "quick"
+    os.environ.setdefault("VERIF_EVIDENCE", os.path.join(core.VERIF, "evidence_extra"))
+    ctx = core.Ctx("X-" + a.name, tier, seed)
+    try:
+        p = os.path.join(core.VERIF, "extras", a.name, "check.py")
+        spec = importlib.util.spec_from_file_location("extra_" + a.name, p)
+        m = importlib.util.module_from_spec(spec)
+        sys.path.insert(0, os.path.dirname(p))
+        sys.path.insert(0, os.path.join(core.VERIF, "checks", "_shared"))
+        spec.loader.exec_module(m)
+        m.run(ctx)
+        rc = ctx.finish()
+    except core.MachineryError as e:
+        print("MACHINERY-FAILURE extra=%s: %s" % (a.name, e))
+        rc = 2
+    except Exception:
+        traceback.print_exc()
+        print("MACHINERY-FAILURE extra=%s (exception above)" % a.name)
+        rc = 2
+    sys.exit(rc)
+
+
 def cmd_all(a):
     ids = a.ids or sorted(d for d in os.listdir(os.path.join(core.VERIF, "checks"))
                           if os.path.exists(os.path.join(core.VERIF, "checks", d, "check.py")))
@@ -159,6 +184,7 @@ def main():
     c = sub.add_parser("check"); c.add_argument("id"); c.add_argument("--tier"); c.add_argument("--seed", type=int); c.set_defaults(f=cmd_check)
     c = sub.add_parser("all"); c.add_argument("ids", nargs="*"); c.add_argument("--tier", default="quick"); c.add_argument("-j", type=int, default=4)
     c.add_argument("--seed", type=int); c.add_argument("-v", "--verbose", action="store_true"); c.set_defaults(f=cmd_all)
+    c = sub.add_parser("extra"); c.add_argument("name"); c.add_argument("--tier"); c.add_argument("--seed", type=int); c.set_defaults(f=cmd_extra)
     c = sub.add_parser("manifest"); c.set_defaults(f=cmd_manifest)
     c = sub.add_parser("setup"); c.set_defaults(f=cmd_setup)
     c = sub.add_parser("replay"); c.add_argument("path"); c.set_defaults(f=cmd_replay)
